@@ -358,6 +358,7 @@ def dynamic_half(ck, progs, triples, depth_rows, events):
             tab.setdefault(d[0], set()).update(tuple(x) for x in d[1:])
     handlers = {}        # prog -> any block with handlers?
     dirty = set()        # (prog, block id) with a statically reported finding: the surplus is real at run time
+    dirty_env = set()    # ... where the finding is an environment-depth disagreement (async completion code)
     opname = {}
     for meta, comp, resu in triples:
         pg = meta["prog"]
@@ -367,9 +368,11 @@ def dynamic_half(ck, progs, triples, depth_rows, events):
             handlers[pg] = handlers.get(pg, False) or bool(b["handlers"])
             for i in b["code"]:
                 opname[(pg, b["id"], i["pc"])] = i["op"]
-        for v in resu["v"]:
+        for v, (sig_, _h) in zip(resu["v"], classify_all(comp, resu["v"])):
             if v[0] != "return-leftover":
                 dirty.add((pg, comp["blocks"][v[1] - 1]["id"]))
+            if sig_ == "async-completion-merges-scope-depths":
+                dirty_env.add((pg, comp["blocks"][v[1] - 1]["id"]))
     exact = loose = 0
     ops_exact = set()
     for prog, evs in events.items():
@@ -394,7 +397,8 @@ def dynamic_half(ck, progs, triples, depth_rows, events):
             else:
                 # handlers do not restore the stacks, known leaks are real: the static depths are lower bounds
                 loose += 1
-                if not any(env == o[0] and bind >= o[1] and args >= o[2] for o in opts):
+                env_ok = (lambda o: env >= o[0]) if (prog, blk) in dirty_env else (lambda o: env == o[0])
+                if not any(env_ok(o) and bind >= o[1] and args >= o[2] for o in opts):
                     ck.failure({"kind": "dynamic-depth-below-static", "op": op},
                                {"program": progs[prog]["src"], "block": blk, "pc": pc, "observed": [env, bind, args], "static": sorted(opts)})
     ck.cov.update(dynamic_programs=len(events), dynamic_events_exact=exact, dynamic_events_lower_bound=loose,
@@ -414,6 +418,18 @@ def run(tier, replay=None):
     os.makedirs(vlib.WORK, exist_ok=True)
     sig = write_sig(binary)
     table_ops = set(re.findall(r'^\s*"(\w+)" :> Op\(', open(os.path.join(os.path.dirname(SPEC), "CodeBlockOps.tla")).read(), re.M))
+
+    # the committed table against the handlers' source (who can raise, operand types): a difference that the engine's own
+    # signature report does not show (e.g. a handler that became fallible) is model drift, not a violation
+    try:
+        import c03_optable
+        repo_root = os.path.normpath(os.path.join(engine_dir(), "..", ".."))
+        if c03_optable.generate(repo_root) != open(os.path.join(os.path.dirname(SPEC), "CodeBlockOps.tla")).read():
+            ck.drift += 1
+            vlib.log("MODEL-DRIFT: spec/vm/CodeBlockOps.tla differs from what tools/c03_optable.py derives from the engine source "
+                     "(regenerate it and review the diff)")
+    except SystemExit as e:
+        raise vlib.ToolError(str(e))
 
     progs = load_corpus()
     rng = random.Random(vlib.seed())
